@@ -152,6 +152,14 @@ pub assume_specification<T>[core::option::Option::<T>::xor](o: Option<T>, optb: 
     ensures out == (match (o, optb) { (Some(a), None) => Some(a), (None, Some(b)) => Some(b), _ => None });
 pub assume_specification<T, U>[core::option::Option::<T>::and::<U>](o: Option<T>, optb: Option<U>) -> (out: Option<U>)
     ensures out == (match o { Some(_) => optb, None => None::<U> });
+pub assume_specification<T, U>[core::option::Option::<T>::zip::<U>](o: Option<T>, other: Option<U>) -> (out: Option<(T, U)>)
+    ensures out == (match (o, other) { (Some(a), Some(b)) => Some((a, b)), _ => None::<(T, U)> });
+pub assume_specification<T, F: FnOnce(&T) -> bool>[core::option::Option::<T>::filter::<F>](o: Option<T>, f: F) -> (out: Option<T>)
+    requires o is Some ==> f.requires((&o->Some_0,)),
+    ensures o is None ==> out is None, o is Some ==> (f.ensures((&o->Some_0,), true) ==> out == o) && (f.ensures((&o->Some_0,), false) ==> out is None), out is Some ==> out == o;
+pub assume_specification<T, E, F: FnOnce(T) -> bool>[core::result::Result::<T, E>::is_ok_and](r: core::result::Result<T, E>, f: F) -> (out: bool)
+    requires r is Ok ==> f.requires((r->Ok_0,)),
+    ensures r is Err ==> !out, r is Ok ==> f.ensures((r->Ok_0,), out);
 '''
 
 # std::time::{Duration, Instant} as nanosecond naturals (machine representation: u64 secs + u32 nanos => Duration <= dmax)
